@@ -393,3 +393,96 @@ def props_remove_allocs(E, res):
         to = fget(E, obj, 0, ADDR)
         P.append(('refund goes to the client', b_and(to.proto == 0, to.key == client)))
     return P
+
+
+# ---- universal_receiver_hook: datacap tokens received pay exactly for the requested allocations + extensions -----
+
+def run_receiver_hook(nalloc, next_):
+    def run(E):
+        rt, rtref = new_rt(E)
+        rt.state = LazyV('st', 'State')
+        abase, cbase = wf_hook(E, None)
+        E.ctx.env.update(dict(abase=abase, cbase=cbase))
+        SF = Fields('actors/verifreg/src/state.rs', 'State')
+        # reachable states: allocation ids are handed out consecutively from 1; chain epochs are far below 2^40
+        E.ctx.assume(z3.And(fget(E, rt.state, SF['next_allocation_id'], 'u64').v < 2**62, rt.epoch >= 0, rt.epoch < 2**40))
+        allocs = [LazyV('areq%d' % i, 'types::AllocationRequest') for i in range(nalloc)]
+        exts = [LazyV('ereq%d' % i, 'types::ClaimExtensionRequest') for i in range(next_)]
+        reqs = StructV('types::AllocationRequests', {0: VecV(allocs, 'Vec<AllocationRequest>'), 1: VecV(exts, 'Vec<ClaimExtensionRequest>')})
+        amount = z3.Int('tokens_received')
+        E.ctx.assume(amount >= 0)
+        frm = E.materialize('u64', 'from')
+        to = E.materialize('u64', 'to')
+        recv = StructV('frc46_token::receiver::FRC46TokenReceived', {0: frm, 1: to, 2: E.materialize('u64', 'operator'), 3: BigV(amount),
+                                                                     4: BlockV(reqs), 5: BlockV(UNIT)})
+        ty = E.materialize('u32', 'receiver_type')
+        params = StructV('fvm_actor_utils::receiver::UniversalReceiverParams', {0: ty, 1: BlockV(recv)})
+        E.ctx.env.update(dict(allocs=allocs, exts=exts, amount=amount, frm=frm.v, to=to.v, rtype=ty.v))
+        fn = find_fn(E, VR, 'universal_receiver_hook')
+        return E.run_function(fn, [rtref, params]), rt
+    return run
+
+
+def props_receiver_hook(E, res):
+    env = res.ctx.env
+    rt = env['rt']
+    ctx = res.ctx
+    if res.kind != 'return':
+        return [('no panic (%s)' % str(res.info)[:60], False)]
+    if is_err(res.value):
+        return [('a rejected transfer commits nothing', rt.commits == 0)]
+    AR = Fields('actors/verifreg/src/types.rs', 'AllocationRequest')
+    ER = Fields('actors/verifreg/src/types.rs', 'ClaimExtensionRequest')
+    SF = Fields('actors/verifreg/src/state.rs', 'State')
+    P = [('only the datacap token actor delivers tokens', b_and(rt.caller.proto == 0, rt.caller.key == DATACAP)),
+         ('payload addressed to this actor', env['to'] == rt.receiver.key)]
+    total = 0
+    for a in env['allocs']:
+        size = fget(E, fget(E, a, AR['size'], 'fvm_shared::piece::PaddedPieceSize'), 0, 'u64').v
+        total = total + size
+    ext_total = 0
+    for e_ in env['exts']:
+        prov = fget(E, e_, ER['provider'], 'u64').v
+        cid_ = fget(E, e_, ER['claim'], 'u64').v
+        pres, cl = base_lookup(E, env['cbase'], ('tuple', 'int', prov, 'int', cid_)) if False else (None, None)
+        # the claim looked up for (provider, claim id)
+        b = base_info(E, env['cbase'])
+        hit = None
+        for ent in b.entries:
+            k = ent[0]
+            if implied(ctx, z3.And(k[1] == prov, k[2] == cid_)) if len(k) >= 3 and not isinstance(k[1], str) else False:
+                hit = ent
+        if hit is None:
+            # key layout differs: find by any entry whose components are implied equal
+            for ent in b.entries:
+                comps = [x for x in ent[0] if not isinstance(x, str)]
+                if len(comps) >= 2 and implied(ctx, z3.And(comps[-2] == prov, comps[-1] == cid_)):
+                    hit = ent
+        if hit is None or hit[1] is not True:
+            P.append(('an extended claim exists', False))
+            continue
+        ext_total = ext_total + claim_view(E, hit[2])['size']
+    P.append(('the tokens received pay exactly for the new allocations plus the extended claims (whole datacap units; no change is returned, nothing is created unpaid)',
+              z3.And(env['amount'] / 10**18 == total + ext_total)))
+    burns = [s for s in rt.sends]
+    if burns:
+        s = burns[0]
+        obj = s.params.obj if isinstance(s.params, BlockV) else None
+        P.append(('tokens spent on extensions are burnt at once (one Burn to the datacap actor)',
+                  b_and(len(burns) == 1, s.to.proto == 0, s.to.key == DATACAP, s.ok is True, big(E, fget(E, obj, 0, TOKEN)) == ext_total * 10**18) if obj is not None else False))
+    else:
+        P.append(('no burn only when nothing was spent on extensions', ext_total == 0))
+    # new allocations recorded for the sender of the tokens
+    acid = fget(E, rt.state, SF['allocations'], CID)
+    am = heap_get(E, acid) if isinstance(acid, CidV) else None
+    n_new = len(env['allocs'])
+    if n_new:
+        if not isinstance(am, MapM):
+            P.append(('allocations table written', False))
+        else:
+            written = [(k, pres, val) for (k, pres, val, _) in am.over if pres]
+            P.append(('one allocation recorded per request', len(written) == n_new))
+            for (k, pres, val) in written:
+                v = alloc_view(E, val)
+                P.append(('allocations belong to the sender of the tokens', v['client'] == env['frm']))
+    return P
